@@ -1665,7 +1665,8 @@ impl Server {
                 "ZADD" | "ZREM" | "ZINCRBY" | "ZPOPMIN" | "ZPOPMAX" |
                 "XADD" | "XTRIM" | "XDEL" |  // Stream write commands
                 "XGROUP" | "XACK" | "XCLAIM" |  // Consumer group write commands
-                "MSET" | "APPEND" | "SETRANGE" | "RENAME" | "RENAMENX" | "PERSIST" | "EVAL" | "EVALSHA"
+                "MSET" | "APPEND" | "SETRANGE" | "RENAME" | "RENAMENX" | "PERSIST" | "EVAL" | "EVALSHA" |
+                "PEXPIRE" | "GETSET" | "HMSET"
             )
         }
     }
